@@ -178,6 +178,13 @@ def eval_scene(fam, s):
         if isinstance(r, lib.Raised):
             bad('raises:' + r.cls, 'a shape', r)
             return None
+        # the caller goes on using its arguments (a centre Point reused as a cursor, a direction vector rescaled): the shape
+        # already built must not follow them - every check below looks at the shape after this
+        for a_ in args:
+            if isinstance(a_, Point):
+                a_.move(Vector(3.0, -2.0, 15.0))
+            elif isinstance(a_, Vector):
+                a_[0], a_[1], a_[2] = a_[1] * 2 + 1, a_[2] - 3, a_[0] + 0.5
         return r
 
     if kind in ('Circle', 'Cylinder', 'Cone'):
